@@ -4,7 +4,7 @@ From SV Require Import Lib.Base Gen.Consts.
 From SV Require Import Model.Seq32 Model.Assembler Model.TcpBuf Model.TcpTypes Model.Tcp Model.TcpNet.
 From SV Require Import Proofs.TcpSendBase Proofs.TcpLiveBase Proofs.TcpLiveProofs Proofs.TcpLiveMore Proofs.TcpLiveProgress.
 From SV Require Import Proofs.TcpNetBase.
-From SV Require Import Proofs.TcpProgressBase Proofs.TcpProgressFrame Proofs.TcpProgressRecv Proofs.TcpProgressSend Proofs.TcpProgressNet Proofs.TcpProgressData Proofs.TcpProgressAck Proofs.TcpProgressAll Proofs.TcpProgressExample.
+From SV Require Import Proofs.TcpProgressBase Proofs.TcpProgressFrame Proofs.TcpProgressRecv Proofs.TcpProgressSend Proofs.TcpProgressNet Proofs.TcpProgressData Proofs.TcpProgressAck Proofs.TcpProgressAll Proofs.TcpProgressExample Proofs.TcpProgressWitness.
 From SV Require Import Props.C02live.
 
 Check (C02live_fair_runb_sound : forall Dt Da evs fa st,
@@ -216,3 +216,24 @@ Check (C02live_all_written_bytes_eventually_acked_partial : forall x Dt Da Dack 
   net_now st x + Z.of_nat n * W3 Dt Dack < net_now st' x ->
   exists pre post st1, evs = pre ++ post /\ net_run st pre = Ok st1 /\ net_run st1 post = Ok st' /\
                        L0 <= una_off (net_get st1 x) /\ L0 <= rcv_off (net_get st1 (side_other x))).
+
+Check (C02live_run_invariant_initial : forall ca cb st,
+  cc_ok (c_cc ca) -> cc_ok (c_cc cb) -> 0 <= c_now ca -> 0 <= c_now cb ->
+  net_init ca cb = Ok st -> NI st).
+
+Check (C02live_composition_hypotheses_satisfiable :
+  exists st0 st st',
+    net_init ex_cfg_a ex_cfg_b = Ok st0 /\ net_run st0 wit_prefix = Ok st /\
+    NI st /\ opts_ok st /\ dl_sync (fa_init 5000 5000 st) st /\
+    run_all (safe3 SA 10000) st wit_suffix /\ fair_run 5000 5000 (fa_init 5000 5000 st) st wit_suffix /\
+    net_run st wit_suffix = Ok st' /\
+    5 <= l_len (ep_written (net_get st SA)) /\ 5 - una_off (net_get st SA) <= Z.of_nat 5 /\
+    net_now st SA + Z.of_nat 5 * W3 5000 10000 < net_now st' SA).
+
+Check (C02live_witness_prefix_is_lossy : In (NDrop SB 2) wit_prefix).
+
+Check (C02live_composition_applies :
+  exists st0 st st',
+    net_init ex_cfg_a ex_cfg_b = Ok st0 /\ net_run st0 wit_prefix = Ok st /\ net_run st wit_suffix = Ok st' /\
+    exists pre post st1, wit_suffix = pre ++ post /\ net_run st pre = Ok st1 /\ net_run st1 post = Ok st' /\
+                         5 <= una_off (net_get st1 SA) /\ 5 <= rcv_off (net_get st1 SB)).
